@@ -24,7 +24,7 @@ def symptom(o):
         return "process exit: " + norm(o.get("panic", ""))
     parts = ["list %d" % o["listStatus"], "get %d" % o["getStatus"]]
     for e in o.get("errors") or []:
-        if e.startswith("get:"):
+        if e.startswith("get:") or e.startswith("list:"):
             parts.append(norm(e))
     return " ".join(parts)
 
@@ -75,6 +75,8 @@ def run(ctx):
             o = rec["obs"]
             if not o["alive"]:
                 sym = "process_exit"
+            elif b["monitor"] == "lists_complete_parts":
+                sym = "list_error" if o["listStatus"] != 200 else "list_short"
             elif o["getStatus"] != 200:
                 sym = "get_error"
             else:
